@@ -3,17 +3,18 @@
    objects of pkg/yqlib that evaluations share.  No proofs here.
 
    Found by reading the code (anchors of C18):
-   * envsubstOpType.Type      lexer_participle.go:envSubstWithOptions assigns it while
-                              LEXING `envsubst(ne,nu,ff)`; every Operation made by the lexer
-                              copies opType.Type into Operation.Value; the evaluator reads
-                              OperationType.Type only in four error messages (with / reduce x2 /
-                              setpath) and in toString (debug log).
+   * operation type names     lexer_participle.go:envSubstWithOptions gives every `envsubst(ne,nu,ff)`
+                              operation its own copy of the operation type (it used to assign the
+                              package-level envsubstOpType.Type while lexing: repaired); the names
+                              are read in four error messages (with / reduce x2 / setpath) and in
+                              toString (debug log).  They are a function of the expression alone.
    * decoder instances        one per evaluation run in cmd, reusable through the API; Init
-                              re-initialises the per-stream fields -- except tomlDecoder.finished
-                              and luaDecoder.finished (Init leaves them), and yamlDecoder.firstFile
-                              (only ever set to false; read by Init when EvaluateTogether).
-   * load_* decoder singletons  lexer rules LoadYaml / LoadXML / LoadProperties / LoadBase64 capture
-                              one Decoder each, shared by every expression of the process.
+                              re-initialises the per-stream fields (since the repair also `finished`
+                              of the TOML and Lua decoders) -- except yamlDecoder.firstFile (only
+                              ever set to false; read by Init when EvaluateTogether: it cannot tell a
+                              new run from the next file of an eval-all run).
+   * load_* operators         create a decoder per use (the lexer rules used to capture one decoder
+                              instance for the whole process: repaired).
    * parsed expression trees  fresh per ParseExpression; reusable by the caller; sortOperator
                               assigns expressionNode.RHS.
    * Configured*Preferences   package variables, written by cmd from the flags before each run,
@@ -43,10 +44,9 @@ Definition fmt_eqb (a b : fmt) : bool :=
 Record dstate := mkD { d_finished : bool; d_read_anything : bool; d_first_file : bool }.
 Definition d_new : dstate := mkD false false true.      (* New*Decoder *)
 
-(* Decoder.Init.  [fixinit] = the repaired Init that also clears finished for TOML and Lua. *)
-Definition init (fixinit : bool) (f : fmt) (d : dstate) : dstate :=
+(* Decoder.Init *)
+Definition init (f : fmt) (d : dstate) : dstate :=
   match f with
-  | FToml | FLua => if fixinit then mkD false false (d_first_file d) else d
   | FYaml => mkD false false false
   | _ => mkD false false (d_first_file d)
   end.
@@ -70,21 +70,20 @@ Variable dec_sem : fmt -> bool -> D -> DOCS.  (* decode a whole stream; the bool
 Variable dec_eof : DOCS.                      (* a decoder that reports EOF at once: no documents *)
 Variable dec_fails : fmt -> D -> bool.        (* the stream ends in a decode error (then `finished` is not set) *)
 Variable sem : C -> Pf -> DOCS -> V.          (* evaluate + print: value part *)
-Variable msg : C -> Pf -> DOCS -> list str -> str -> M.   (* message part: may show Operation.Value copies and the global Type *)
+Variable msg : C -> Pf -> DOCS -> list str -> M.   (* message part: may show the operation type names of the tree *)
 Variable default_prefs : Pf.
 
 (* a parsed tree as the caller holds it *)
-Record tree := mkTree { t_core : C; t_types : list str; t_sort_rhs : bool }.
+Record tree := mkTree { t_core : C; t_types : list str; t_sort_rhs : bool }.   (* t_types: the type names of its envsubst operations *)
 
 Record G := mkG {
-  g_type : str;                         (* envsubstOpType.Type *)
   g_dec : fmt -> bool -> dstate;        (* the caller's reusable decoder instances, one per format and EvaluateTogether preference (a constructor argument) *)
   g_trees : list (N * tree);            (* parsed trees the caller keeps for reuse, by expression *)
   g_prefs : Pf;                         (* Configured*Preferences *)
   g_xml_lead : str                      (* leadingContent of a reused xmlEncoder *)
 }.
 
-Definition G0 : G := mkG c_envsubst (fun _ _ => d_new) [] default_prefs [].
+Definition G0 : G := mkG (fun _ _ => d_new) [] default_prefs [].
 
 Record request := mkReq {
   q_expr : N;
@@ -97,16 +96,9 @@ Record request := mkReq {
   q_xml_lead : str              (* leading content of the last node printed (through an XML encoder) *)
 }.
 
-(* ---- lexing: the writes to envsubstOpType.Type and the copies into Operation.Value ---- *)
-Fixpoint lex (ty : str) (toks : list etok) : str * list str :=
-  match toks with
-  | [] => (ty, [])
-  | TokOpt sfx :: r =>
-      let ty1 := c_envsubst ++ concat sfx in
-      let '(ty2, vs) := lex ty1 r in (ty2, ty1 :: vs)
-  | TokPlain :: r =>
-      let '(ty2, vs) := lex ty r in (ty2, ty :: vs)
-  end.
+(* ---- lexing: the type name each envsubst operation carries ---- *)
+Definition lex (toks : list etok) : list str :=
+  List.map (fun t => match t with TokOpt sfx => c_envsubst ++ concat sfx | TokPlain => c_envsubst end) toks.
 
 Fixpoint find_tree (e : N) (l : list (N * tree)) : option tree :=
   match l with
@@ -120,55 +112,52 @@ Fixpoint store_tree (e : N) (t : tree) (l : list (N * tree)) : list (N * tree) :
   | (k, t') :: r => if k =? e then (e, t) :: r else (k, t') :: store_tree e t r
   end.
 
-(* ParseExpression *)
-Definition parse (g : G) (e : N) : G * tree :=
-  let '(ty, vs) := lex (g_type g) (env_toks e) in
-  (mkG ty (g_dec g) (g_trees g) (g_prefs g) (g_xml_lead g), mkTree (parse_core e) vs false).
+(* ParseExpression: touches nothing shared *)
+Definition parse (e : N) : tree := mkTree (parse_core e) (lex (env_toks e)) false.
 
 (* Init + Decode to the end on one decoder instance *)
-Definition decode_run (fixinit : bool) (f : fmt) (together : bool) (d : dstate) (text : D) : dstate * DOCS :=
+Definition decode_run (f : fmt) (together : bool) (d : dstate) (text : D) : dstate * DOCS :=
   let pre := match f with FYaml => negb together || d_first_file d | _ => true end in
-  let d1 := init fixinit f d in
+  let d1 := init f d in
   if d_finished d1 then (d1, dec_eof)
   else (mkD (negb (dec_fails f text)) true (d_first_file d1), dec_sem f pre text).
 
 Definition output : Type := V * M.
 
 (* everything after the tree is available *)
-Definition eval_with (fixinit : bool) (g1 : G) (pf : Pf) (x : request) (t : tree) (keep : bool) : G * output :=
+Definition eval_with (g1 : G) (pf : Pf) (x : request) (t : tree) (keep : bool) : G * output :=
   (* the decoder *)
   let d := if q_reuse_dec x then g_dec g1 (q_fmt x) (q_together x) else d_new in
-  let '(d', docs) := decode_run fixinit (q_fmt x) (q_together x) d (q_text x) in
+  let '(d', docs) := decode_run (q_fmt x) (q_together x) d (q_text x) in
   (* evaluation: sortOperator writes RHS, then everything reads the tree *)
   let t' := mkTree (t_core t) (t_types t) true in
-  let o := (sem (t_core t') pf docs, msg (t_core t') pf docs (t_types t') (g_type g1)) in
+  let o := (sem (t_core t') pf docs, msg (t_core t') pf docs (t_types t')) in
   let decs := if q_reuse_dec x then (fun f b => if fmt_eqb f (q_fmt x) && Bool.eqb b (q_together x) then d' else g_dec g1 f b) else g_dec g1 in
   let trees := if keep then store_tree (q_expr x) t' (g_trees g1) else g_trees g1 in
-  (mkG (g_type g1) decs trees pf (q_xml_lead x), o).
+  (mkG decs trees pf (q_xml_lead x), o).
 
-Definition step (fixinit : bool) (g : G) (x : request) : G * output :=
+Definition step (g : G) (x : request) : G * output :=
   (* configuration, as cmd does from the flags *)
   let pf := match q_prefs x with Some p => p | None => g_prefs g end in
   (* the tree: kept one, or a new parse *)
   match (if q_reuse_tree x then find_tree (q_expr x) (g_trees g) else None) with
-  | Some t => eval_with fixinit g pf x t true
+  | Some t => eval_with g pf x t true
   | None =>
-      let '(g', t) := parse g (q_expr x) in
       if parse_fails (q_expr x) then
-        (* the lexer has run (and written the Type); no decoder, tree or encoder is touched *)
-        (mkG (g_type g') (g_dec g) (g_trees g) pf (g_xml_lead g), (parse_err (q_expr x), parse_msg (q_expr x)))
-      else eval_with fixinit g' pf x t (q_reuse_tree x)
+        (* no decoder, tree or encoder is touched *)
+        (mkG (g_dec g) (g_trees g) pf (g_xml_lead g), (parse_err (q_expr x), parse_msg (q_expr x)))
+      else eval_with g pf x (parse (q_expr x)) (q_reuse_tree x)
   end.
 
-Fixpoint run (fixinit : bool) (g : G) (h : list request) : G * list output :=
+Fixpoint run (g : G) (h : list request) : G * list output :=
   match h with
   | [] => (g, [])
-  | x :: r => let '(g1, o) := step fixinit g x in let '(g2, os) := run fixinit g1 r in (g2, o :: os)
+  | x :: r => let '(g1, o) := step g x in let '(g2, os) := run g1 r in (g2, o :: os)
   end.
 
 (* output of the last request of a history *)
-Definition last_out (fixinit : bool) (h : list request) (x : request) : output :=
-  snd (step fixinit (fst (run fixinit G0 h)) x).
+Definition last_out (h : list request) (x : request) : output :=
+  snd (step (fst (run G0 h)) x).
 
 (* what the same request yields when it is the first thing a process does *)
 Definition spec_value (x : request) : V :=
@@ -176,49 +165,40 @@ Definition spec_value (x : request) : V :=
   sem (parse_core (q_expr x)) (match q_prefs x with Some p => p | None => default_prefs end)
       (dec_sem (q_fmt x) true (q_text x)).
 
+Definition spec_msg (x : request) : M :=
+  if parse_fails (q_expr x) then parse_msg (q_expr x) else
+  msg (parse_core (q_expr x)) (match q_prefs x with Some p => p | None => default_prefs end)
+      (dec_sem (q_fmt x) true (q_text x)) (lex (env_toks (q_expr x))).
+
 (* ------------------------------------------------------------------ *)
 (* concurrency, at the granularity of accesses to shared objects        *)
 (* ------------------------------------------------------------------ *)
-(* shared between goroutines: envsubstOpType.Type and the load_* decoder
-   singletons (reader + per-stream flags).  Everything else an evaluation
-   touches is private to it when evaluators, documents, decoders, printers
-   are separate. *)
-Inductive lfmt := LYaml | LXml | LProps | LBase64.
-Definition lfmt_eqb (a b : lfmt) : bool :=
-  match a, b with LYaml, LYaml | LXml, LXml | LProps, LProps | LBase64, LBase64 => true | _, _ => false end.
-
-Record shared := mkSh { sh_type : str; sh_load : lfmt -> option D }.   (* the reader a load decoder is positioned on *)
-
+(* Since the two repairs no evaluation step writes an object that another
+   evaluation can reach when evaluators, documents, decoders, printers are
+   separate: what stays shared (Configured*Preferences, the lexer definition,
+   the operation type table) is only read.  An evaluation is a list of steps
+   that read the shared value or work on private objects. *)
 Inductive action :=
-| ASetType                       (* envsubstOpType.Type = ENVSUBST *)
-| AAppendType (sfx : str)        (* envsubstOpType.Type = envsubstOpType.Type + sfx *)
-| AReadType                      (* Operation.Value = opType.Type *)
-| ALoadInit (f : lfmt) (t : D)   (* loadPrefs.decoder.Init(reader) on the singleton *)
-| ALoadDecode (f : lfmt)         (* loadPrefs.decoder.Decode() on the singleton *)
-| APrivate.                      (* any step on private objects *)
+| AReadShared                    (* read Configured*Preferences / the operation type table *)
+| APrivate (k : N).              (* a step on private objects *)
 
-(* private state of one evaluation: the Type strings it copied, the streams its load operators decoded *)
-Record priv := mkPriv { p_types : list str; p_loaded : list (option D) }.
+Record priv := mkPriv { p_seen : list Pf; p_work : list N }.
 Definition priv0 : priv := mkPriv [] [].
 
-Definition act (s : shared) (p : priv) (a : action) : shared * priv :=
+Definition act (s : Pf) (p : priv) (a : action) : Pf * priv :=
   match a with
-  | ASetType => (mkSh c_envsubst (sh_load s), p)
-  | AAppendType sfx => (mkSh (sh_type s ++ sfx) (sh_load s), p)
-  | AReadType => (s, mkPriv (p_types p ++ [sh_type s]) (p_loaded p))
-  | ALoadInit f t => (mkSh (sh_type s) (fun f' => if lfmt_eqb f' f then Some t else sh_load s f'), p)
-  | ALoadDecode f => (s, mkPriv (p_types p) (p_loaded p ++ [sh_load s f]))
-  | APrivate => (s, p)
+  | AReadShared => (s, mkPriv (p_seen p ++ [s]) (p_work p))
+  | APrivate k => (s, mkPriv (p_seen p) (p_work p ++ [k]))
   end.
 
-Fixpoint acts (s : shared) (p : priv) (l : list action) : shared * priv :=
+Fixpoint acts (s : Pf) (p : priv) (l : list action) : Pf * priv :=
   match l with
   | [] => (s, p)
   | a :: r => let '(s1, p1) := act s p a in acts s1 p1 r
   end.
 
 (* a schedule: true = next step of the first evaluation *)
-Fixpoint interleave (sch : list bool) (s : shared) (pa pb : priv) (la lb : list action) : shared * priv * priv :=
+Fixpoint interleave (sch : list bool) (s : Pf) (pa pb : priv) (la lb : list action) : Pf * priv * priv :=
   match sch with
   | [] =>
       let '(s1, pa1) := acts s pa la in
@@ -235,22 +215,16 @@ Fixpoint interleave (sch : list bool) (s : shared) (pa pb : priv) (la lb : list 
       end
   end.
 
-Definition uses_load (a : action) : bool :=
-  match a with ALoadInit _ _ | ALoadDecode _ => true | _ => false end.
-
 End History.
 
 Arguments mkTree {C}. Arguments t_core {C}. Arguments t_types {C}. Arguments t_sort_rhs {C}.
-Arguments mkG {C Pf}. Arguments g_type {C Pf}. Arguments g_dec {C Pf}. Arguments g_trees {C Pf}.
+Arguments mkG {C Pf}. Arguments g_dec {C Pf}. Arguments g_trees {C Pf}.
 Arguments g_prefs {C Pf}. Arguments g_xml_lead {C Pf}. Arguments G0 {C Pf}.
 Arguments mkReq {Pf D}. Arguments q_expr {Pf D}. Arguments q_reuse_tree {Pf D}. Arguments q_fmt {Pf D}.
 Arguments q_text {Pf D}. Arguments q_together {Pf D}. Arguments q_reuse_dec {Pf D}. Arguments q_prefs {Pf D}.
 Arguments q_xml_lead {Pf D}.
-Arguments find_tree {C}. Arguments store_tree {C}. Arguments parse {C Pf}.
+Arguments find_tree {C}. Arguments store_tree {C}. Arguments parse {C}.
 Arguments decode_run {D DOCS}. Arguments eval_with {C Pf D DOCS V M}. Arguments step {C Pf D DOCS V M}. Arguments run {C Pf D DOCS V M}.
-Arguments last_out {C Pf D DOCS V M}. Arguments spec_value {C Pf D DOCS V}.
-Arguments mkSh {D}. Arguments sh_type {D}. Arguments sh_load {D}.
-Arguments ASetType {D}. Arguments AAppendType {D}. Arguments AReadType {D}. Arguments ALoadInit {D}.
-Arguments ALoadDecode {D}. Arguments APrivate {D}.
-Arguments mkPriv {D}. Arguments p_types {D}. Arguments p_loaded {D}. Arguments priv0 {D}.
-Arguments act {D}. Arguments acts {D}. Arguments interleave {D}. Arguments uses_load {D}.
+Arguments last_out {C Pf D DOCS V M}. Arguments spec_value {C Pf D DOCS V}. Arguments spec_msg {C Pf D DOCS M}.
+Arguments mkPriv {Pf}. Arguments p_seen {Pf}. Arguments p_work {Pf}. Arguments priv0 {Pf}.
+Arguments act {Pf}. Arguments acts {Pf}. Arguments interleave {Pf}.
